@@ -241,24 +241,34 @@ func init() {
 
 		// 4. densification guards
 		w.WriteString("/-! sheet.go: guards of the two densification loops (`rowCount OP row`, `cellCount OP col`) -/\n")
+		// the guard is the first `if`/`for` condition `X OP <rhs>` of the function (robust against renaming
+		// the counter or dropping the redundant `if` around the loop)
 		guard := func(fn, recv, lhs, rhs, def string) {
+			_ = lhs
 			fd := funcDecl(recv, fn)
 			op := ""
 			if fd != nil && fd.Body != nil {
-				for _, st := range fd.Body.List {
-					if ifs, ok := st.(*ast.IfStmt); ok {
-						if b, ok := ifs.Cond.(*ast.BinaryExpr); ok {
-							x, ok1 := b.X.(*ast.Ident)
-							y, ok2 := b.Y.(*ast.Ident)
-							if ok1 && ok2 && x.Name == lhs && y.Name == rhs {
+				ast.Inspect(fd.Body, func(n ast.Node) bool {
+					var cond ast.Expr
+					switch st := n.(type) {
+					case *ast.IfStmt:
+						cond = st.Cond
+					case *ast.ForStmt:
+						cond = st.Cond
+					}
+					if b, ok := cond.(*ast.BinaryExpr); ok && op == "" {
+						if y, ok := b.Y.(*ast.Ident); ok && y.Name == rhs {
+							switch b.Op {
+							case token.LSS, token.LEQ, token.GTR, token.GEQ:
 								op = b.Op.String()
 							}
 						}
 					}
-				}
+					return true
+				})
 			}
 			if op == "" {
-				fail("%s: guard `%s OP %s`", fn, lhs, rhs)
+				fail("%s: guard `X OP %s`", fn, rhs)
 				op = "?"
 			}
 			fmt.Fprintf(w, "def %s : String := %s\n", def, leanStr(op))
